@@ -268,13 +268,24 @@ pub fn with_rec<R>(rec: &Rec, f: impl FnOnce(&log::Record) -> R) -> R {
         log_mdc::insert(k.clone(), v.clone());
     }
     let disp = Pieces(&rec.msg);
+    // the strings of consecutive records live at the same addresses (reused buffers): what a formatter may remember
+    // about an earlier record must not be keyed by where its text happened to be
+    let (target, module, file) = FIELD_BUFFERS.with(|b| {
+        let mut b = b.borrow_mut();
+        let mut put = |i: usize, s: &str| -> String {
+            b[i].clear();
+            b[i].push_str(s);
+            std::mem::take(&mut b[i])
+        };
+        (put(0, &rec.target), rec.module.as_deref().map(|m| put(1, m)), rec.file.as_deref().map(|x| put(2, x)))
+    });
     let build = |args: fmt::Arguments| -> R {
         f(&log::Record::builder()
             .args(args)
             .level(rec.level())
-            .target(&rec.target)
-            .module_path(rec.module.as_deref())
-            .file(rec.file.as_deref())
+            .target(&target)
+            .module_path(module.as_deref())
+            .file(file.as_deref())
             .line(rec.line)
             .build())
     };
@@ -289,7 +300,22 @@ pub fn with_rec<R>(rec: &Rec, f: impl FnOnce(&log::Record) -> R) -> R {
         _ => build(format_args!("{}", disp)),
     };
     log_mdc::clear();
+    // hand the buffers back (capacity and address are kept)
+    FIELD_BUFFERS.with(|b| {
+        let mut b = b.borrow_mut();
+        b[0] = target;
+        if let Some(m) = module {
+            b[1] = m;
+        }
+        if let Some(x) = file {
+            b[2] = x;
+        }
+    });
     r
+}
+
+thread_local! {
+    static FIELD_BUFFERS: std::cell::RefCell<[String; 3]> = std::cell::RefCell::new([String::with_capacity(4096), String::with_capacity(4096), String::with_capacity(4096)]);
 }
 
 // ---------------------------------------------------------------------------------------------
